@@ -23,7 +23,7 @@ PAIRS = {
 }
 EDITS = ["channels", "unit", "input_type", "loop_radius", "offset_value", "offset_property", "angle", "bearing",
          "waveform", "timing_mark", "components", "reopen", "copy", "copy_cross", "copy_of_copy", "copy_extent",
-         "edit_copy", "edit_copy"]
+         "edit_copy", "edit_copy", "refused_link"]
 
 
 def op_strategy():
@@ -59,14 +59,17 @@ class C20(Check):
             [{"op": "components", "side": "A", "v": [3]}, {"op": "copy_extent", "side": "A", "v": [2]}, {"op": "reopen", "side": "B", "v": [1]}],
             [{"op": "waveform", "side": "A", "v": [1, 2, 3]}, {"op": "copy", "side": "A", "v": [1]}, {"op": "edit_copy", "side": "A", "v": [0]},
              {"op": "edit_copy", "side": "A", "v": [1, 5, 6]}],
+            [{"op": "reopen", "side": "A", "v": [2]}, {"op": "unit", "side": "B", "v": [1]}, {"op": "channels", "side": "A", "v": [3, 4]}],
+            [{"op": "refused_link", "side": "A", "v": [1]}, {"op": "unit", "side": "A", "v": [3]}, {"op": "reopen", "side": "A", "v": [1]}],
         ]
         for pair, direction, ops in itertools.product(PAIRS, ["A", "B"], fixed):
-            progs.append({"pair": pair, "direction": direction, "n": 6, "ops": ops})
+            for resolve in (True, False):
+                progs.append({"pair": pair, "direction": direction, "n": 6, "ops": ops, "resolve_live": resolve})
         return progs
 
     def strategy(self, tier):
         return st.fixed_dictionaries({"pair": st.sampled_from(sorted(PAIRS)), "direction": st.sampled_from(["A", "B"]),
-                                      "n": st.integers(4, 8),
+                                      "n": st.integers(4, 8), "resolve_live": st.booleans(),
                                       "ops": st.lists(op_strategy(), min_size=1, max_size=10)})
 
     # ------------------------------------------------------------------ helpers
@@ -140,7 +143,7 @@ class C20(Check):
         body.pop("Property groups", None)
         return json.loads(json.dumps(body, sort_keys=True, default=lambda o: "{" + str(o) + "}" if isinstance(o, uuid.UUID) else str(o)))
 
-    def check_pair(self, res, ws, a, b, pair, where, opname):
+    def check_pair(self, res, ws, a, b, pair, where, opname, partners=True):
         """Both sides carry both ids (API and raw), shared fields agree, partners resolve."""
         _, _, family, a_to_b, b_to_a = PAIRS[pair]
         ids = {str(a.uid), str(b.uid)}
@@ -168,6 +171,9 @@ class C20(Check):
             diff = [k for k in sorted(set(ra) | set(sa)) if norm(ra).get(k.lower()) != norm(self.strip_names(sa, a)).get(k.lower())]
             res.fail(f"C20/memory-differs-from-file/{pair}/{opname}/{diff[0] if diff else '?'}@{where}", f"API {sa!r:.250} stored {ra!r:.250}")
             return False
+        if not partners:
+            # (reading the partner attribute resolves and caches it: in this mode the program edits first)
+            return True
         pa, pb = getattr(a, a_to_b, None), getattr(b, b_to_a, None)
         if pa is not b or pb is not a:
             res.fail(f"C20/partner-not-resolved/{pair}/{opname}/@{where}", f"A.{a_to_b} is {pa!r}, B.{b_to_a} is {pb!r}")
@@ -206,7 +212,9 @@ class C20(Check):
                 res.fail(f"C20/link-raises/{pair}/{p['direction']}/{type(exc).__name__}", f"{type(exc).__name__}: {exc}"[:300])
                 return res
             res.label(f"pair:{pair}", f"direction:{p['direction']}")
-            if not self.check_pair(res, ws, a, b, pair, "live", "link"):
+            live_partners = bool(p.get("resolve_live", True))
+            res.label("partners-resolved-live" if live_partners else "partners-resolved-at-reopen-only")
+            if not self.check_pair(res, ws, a, b, pair, "live", "link", partners=live_partners):
                 return res
             uid_a, uid_b = a.uid, b.uid
             copies = []  # (copy of A-side or B-side, which side)
@@ -228,11 +236,34 @@ class C20(Check):
                     if a is None or b is None:
                         res.fail(f"C20/lost-on-reopen/{pair}/reopen/", "one side is missing after re-open")
                         return res
-                    if not self.check_pair(res, ws, a, b, pair, "reopened", "reopen"):
+                    # without live resolution the next edit comes BEFORE any partner attribute is read in this session
+                    if live_partners and not self.check_pair(res, ws, a, b, pair, "reopened", "reopen"):
                         return res
                     if edited_via_partner:
                         nontrivial = True
                     copies = []
+                    continue
+                if name == "refused_link":
+                    # a link that must be refused (wrong class / incompatible station count) changes nothing
+                    from geoh5py.objects import Points
+
+                    wrong = Points.create(ws, vertices=np.zeros((2, 3)), name="wrong")
+                    if family == "tipper" and op["side"] == "A":
+                        from geoh5py.objects import TipperBaseStations
+
+                        wrong = TipperBaseStations.create(ws, vertices=np.zeros((2, 3)), name="other")  # 2 stations: incompatible
+                    attr = a_to_b if op["side"] == "A" else b_to_a
+                    try:
+                        setattr(target, attr, wrong)
+                        refused = False
+                    except Exception:
+                        refused = True
+                    if not refused:
+                        res.label("refused_link:accepted")  # nothing documented forbids it for this pair: not judged
+                        return res
+                    res.label("op:refused_link")
+                    if not self.check_pair(res, ws, a, b, pair, "live", "refused_link", partners=True):
+                        return res
                     continue
                 if name == "edit_copy":
                     # an edit of a shared parameter on a COPY must not show through on the originals
@@ -313,7 +344,7 @@ class C20(Check):
                     res.label("op:" + name)
                     if op["side"] == "B":
                         edited_via_partner = True
-                    if not self.check_pair(res, ws, a, b, pair, "live", name):
+                    if not self.check_pair(res, ws, a, b, pair, "live", name, partners=live_partners):
                         return res
             # final re-open
             ws.close()
